@@ -34,11 +34,32 @@ method that returns / yields ``self.P`` or ``self.B`` on some path.
       CONFLICT) lies on every path to the read.  Quantities of the cursor of the statement just executed (``rowcount``,
       ``lastrowid``, fetched rows) are per-statement and never reported.  Planted fixture: fixtures/c21/lifetime_reads.py.
 
+* R4  (transaction scope) every operation is its own transaction in both modes, as it inherently is with per-call
+      connections (what is committed when the call returns is durable, what is not is discarded with the connection).
+      (a) For every data-modifying statement (``execute`` / ``executemany`` of INSERT / REPLACE / UPDATE / DELETE text, through
+      a value that may be the shared connection or a cursor of it) and for every call that hands the connection to a sibling
+      helper which writes on it and leaves the commit to its caller: on every normal path from the write to the method's
+      return a ``commit()`` on the same connection is passed — decided per mode (the provider's hand-out guards assumed
+      true / false) and per "connection parameter passed / not passed" case by forward propagation of known truth values
+      over the CFG (flag locals such as ``owns = conn is None and …`` are evaluated, re-binding forgets).  A commit gated on
+      "I own the connection" leaves the write pending in single-connection mode, where nobody else commits for it: it is
+      lost when the process ends and is discarded by any later ROLLBACK.  Accepted: the write lies in a ``with <sqlite3
+      connection>`` block (commits on success) or in a ``with self.<generator provider>()`` block whose provider commits
+      after its yield in that mode; the connection was passed in by the caller (then the callers are checked).
+      (b) Every ROLLBACK of a value that may be the shared connection (``rollback()``, or the sqlite3 connection used as a
+      context manager — also in the provider: ``with self.P as conn: yield conn``) not dominated by an ownership fact is
+      listed; it is a violation exactly when some write of (a) can be pending in single-connection mode, because then it
+      discards an acknowledged write of another operation.  While (a) holds such a roll-back only discards the failing
+      operation's own statements — what closing a per-call connection does — so it is reported as discharged.
+      Planted fixture: fixtures/c21/tx_scope.py.
+
 Not decided: equality of results between the modes beyond "the same statements run on an open connection and no result
 is read from the connection's history"; writes to connection-lifetime configuration (``row_factory``, PRAGMAs);
 interleaving of another task between a write and a ``changes()`` / difference read (no ``await`` lies inside the provider
-blocks today); transaction boundaries after an exception (per-call mode rolls back on close, the shared connection keeps
-the transaction open); thread affinity of the shared connection.
+blocks today); statements of an operation that *raised* before its commit (per-call mode discards them on close, the
+shared connection keeps them in its open transaction until the next commit); writes made by functions outside the two
+classes that are given the connection (``_run_migrations(conn)``); statements whose text has no constant piece (observed);
+thread affinity of the shared connection.
 """
 
 from __future__ import annotations
@@ -47,10 +68,10 @@ import ast
 import re
 from pathlib import Path
 
-from ..astx import call_name, calls, dotted, enclosing_stmt, expand, facts_at, kwarg, last
+from ..astx import _tv, atoms, call_name, calls, dotted, enclosing_stmt, expand, facts_at, kwarg, last
 from ..cfg import CFG
 from ..index import AnchorError, FuncNode, Module, Repo, _set_parents, parent, walk_shallow
-from ..selftest import Twin
+from ..selftest import Twin, multi
 
 EXPLANATION = (
     "Connection-ownership rules over server/_store/sqlite/sqlite_workflow_store.py (SqliteWorkflowStore) and sqlite_state_store.py "
@@ -66,16 +87,26 @@ EXPLANATION = (
     "last_insert_rowid) is preceded on every path by a write of the same call on the same connection. A per-call connection starts these quantities "
     "from zero, the shared one carries the whole store's history, so such a value differs between the modes; cursor.rowcount / lastrowid do not. "
     "Planted fixture fixtures/c21/lifetime_reads.py. "
+    "R4 (transaction scope): (a) every data-modifying execute through a possibly-shared connection (or a call handing the connection to a sibling helper "
+    "that leaves the commit to its caller) is followed on every normal path to the method's return by commit() on the same connection, decided per mode "
+    "(hand-out guards true/false) and per connection-parameter case by forward propagation of truth values; a commit gated on owning the connection leaves "
+    "the write pending in single-connection mode (lost at process end, discarded by any later ROLLBACK) while a per-call connection has made it durable. "
+    "(b) rollback() / `with <sqlite3 connection>` on a value that may be the shared connection is a violation exactly when some write of (a) can be pending "
+    "in single-connection mode (it then discards another operation's acknowledged write); otherwise it only discards the failing operation's own statements, "
+    "as closing a per-call connection does. Planted fixture fixtures/c21/tx_scope.py. "
     "NOT decided: result equality beyond running the same statements on an open connection without reading its history; writes to connection "
-    "configuration (row_factory, PRAGMA); task interleaving between a write and the read; rollback behaviour after exceptions; thread affinity."
+    "configuration (row_factory, PRAGMA); task interleaving between a write and the read; statements of an operation that raised before its commit; writes by functions outside "
+    "the two classes that are given the connection; thread affinity."
 )
-TRUSTED = ["CPython ast", "sqlite3: a closed connection raises ProgrammingError on every later use; `with conn:` does not close",
+TRUSTED = ["CPython ast", "sqlite3: a closed connection raises ProgrammingError on every later use; `with conn:` does not close, it commits on success and rolls back on exception",
+           "sqlite3 (legacy transaction control): INSERT/UPDATE/DELETE/REPLACE open a transaction that lasts until commit()/rollback(); close() discards it",
            "sqlite3: Connection.total_changes / in_transaction and SQL total_changes() / changes() / last_insert_rowid() are per-connection state "
            "(zero / idle on a new connection); Cursor.rowcount / lastrowid belong to the statement the cursor executed"]
 LEVEL_TEXT = "static typestate/ownership rule (T11) with CFG reaching definitions and guard facts; no repo code executed"
-LEVEL_NOTE = ("A pass means no code path closes the shared connection and no operation reads the connection's accumulated history as its result; "
+LEVEL_NOTE = ("A pass means no code path closes the shared connection, no operation reads the connection's accumulated history as its result, and every write "
+              "is committed on its connection before its operation returns in both modes; "
               "it does not prove equal results of the two modes.")
-TECHNIQUE = "data-flow binding of the shared connection, CFG reaching definitions of close() receivers, dominance facts for ownership guards, connection-lifetime reads (attribute and SQL text) with delta / dominance acceptance, planted fixtures"
+TECHNIQUE = "data-flow binding of the shared connection, CFG reaching definitions of close() receivers, dominance facts for ownership guards, connection-lifetime reads (attribute and SQL text) with delta / dominance acceptance, per-mode forward propagation of truth values for commit-after-write, planted fixtures"
 
 WS_MOD = "llama_agents.server._store.sqlite.sqlite_workflow_store"
 SS_MOD = "llama_agents.server._store.sqlite.sqlite_state_store"
@@ -85,6 +116,7 @@ FACTORY = "create_state_store"
 LIFECYCLE = {"close", "aclose", "__del__", "__exit__", "__aexit__", "dispose", "shutdown", "stop"}
 FIXTURE = Path(__file__).resolve().parent.parent.parent / "fixtures" / "c21" / "borrowed_close.py"
 FIXTURE_R3 = FIXTURE.parent / "lifetime_reads.py"
+FIXTURE_R4 = FIXTURE.parent / "tx_scope.py"
 
 
 def _self_attr(e: ast.AST | None) -> str | None:
@@ -114,6 +146,7 @@ class Owner:
         self.providers: dict[str, list[tuple[ast.AST, set]]] = {}  # method -> [(hand-out node, guard facts)]
         for name, fn in self.methods.items():
             outs = []
+            cfg0 = None
             for n in walk_shallow(fn):
                 v = None
                 if isinstance(n, ast.Return):
@@ -123,9 +156,13 @@ class Owner:
                 elif isinstance(n, ast.Yield):
                     v = n.value
                 if v is not None and self._may_be_protected_expr(fn, v, n):
-                    outs.append(n)
+                    # flow-sensitive confirmation: the binding that reaches this hand-out is the protected one (the per-call
+                    # branch may re-use the name that the shared branch binds with `with self.P as conn`)
+                    cfg0 = cfg0 or CFG(fn)
+                    if _protected_source(self, fn, v, cfg0, enclosing_stmt(n)) is not None:
+                        outs.append(n)
             if outs:
-                cfg = CFG(fn)
+                cfg = cfg0 or CFG(fn)
                 res = []
                 for n in outs:
                     st = enclosing_stmt(n)
@@ -143,7 +180,8 @@ class Owner:
         if isinstance(v, ast.BoolOp):
             return any(self._may_be_protected_expr(fn, x, at) for x in v.values)
         if isinstance(v, ast.Name):
-            return any(self._may_be_protected_expr(fn, d, at) for d in _all_defs(fn, v.id))
+            # assignments and `with <expr> as name` (a sqlite3 connection used as a context manager enters as itself)
+            return any(self._may_be_protected_expr(fn, d, at) for _st, d in _binding_sites(fn, v.id) if d is not v)
         return False
 
     def handout_guards(self) -> set:
@@ -618,6 +656,321 @@ def lifetime_reads(own: Owner) -> tuple[list[dict], int]:
     return sorted(out, key=lambda d: d["site"].lineno), examined
 
 
+# ----------------------------------------------------------------------------------------------- R4 matcher
+
+
+def _surface(assume: dict[str, bool]) -> dict[str, bool]:
+    """The assumed atoms in the surface forms a test may be written in (`X is None` / `X is not None` / `X`)."""
+    out = dict(assume)
+    for txt, v in assume.items():
+        x = txt[: -len(" is None")] if txt.endswith(" is None") else (txt[len("None is "):] if txt.startswith("None is ") and not txt.startswith("None is not ") else None)
+        if x is not None:
+            for form, val in ((f"{x} is None", v), (f"None is {x}", v), (f"{x} is not None", not v), (f"None is not {x}", not v), (x, not v)):
+                out.setdefault(form, val)
+    return out
+
+
+def _reach_states(cfg: CFG, start, assume: dict[str, bool], blocked=()) -> dict:
+    """Private variant of astx.reach_assuming: the same forward propagation of known truth values (flag locals, re-binding
+    forgets, joins keep what agrees, decided tests take one edge), but it returns the state *at* every reached node and never
+    enters a ``blocked`` node.  Normal edges only."""
+    lx = {"exc", "cancel"}
+    blocked = set(blocked)
+    states: dict = {}
+    work: list = []
+
+    def forget(state: dict[str, bool], name: str) -> dict[str, bool]:
+        pat = re.compile(rf"(?<![A-Za-z0-9_.]){re.escape(name)}(?![A-Za-z0-9_])")
+        return {k: v for k, v in state.items() if not pat.search(k)}
+
+    def transfer(n, state: dict[str, bool]) -> dict[str, bool]:
+        a = n.ast
+        if n.kind in ("test", "iter") or a is None:
+            if n.kind == "iter" and a is not None and hasattr(a, "target"):
+                for x in ast.walk(a.target):
+                    if isinstance(x, ast.Name):
+                        state = forget(state, x.id)
+            return state
+        bound: list[tuple[str, ast.AST | None]] = []
+        if isinstance(a, ast.Assign):
+            for t in a.targets:
+                if isinstance(t, ast.Name):
+                    bound.append((t.id, a.value))
+                else:
+                    bound += [(x.id, None) for x in ast.walk(t) if isinstance(x, ast.Name) and isinstance(x.ctx, ast.Store)]
+        elif isinstance(a, ast.AnnAssign) and isinstance(a.target, ast.Name) and a.value is not None:
+            bound.append((a.target.id, a.value))
+        elif isinstance(a, ast.AugAssign) and isinstance(a.target, ast.Name):
+            bound.append((a.target.id, None))
+        elif isinstance(a, (ast.With, ast.AsyncWith)):
+            for it in a.items:
+                if it.optional_vars is not None:
+                    bound += [(x.id, None) for x in ast.walk(it.optional_vars) if isinstance(x, ast.Name)]
+        if not isinstance(a, (ast.If, ast.While, ast.For, ast.AsyncFor, ast.Try, ast.With, ast.AsyncWith)):
+            for x in ast.walk(a):
+                if isinstance(x, ast.NamedExpr) and isinstance(x.target, ast.Name):
+                    bound.append((x.target.id, None))
+        for name, val in bound:
+            v = _tv(val, state) if val is not None else None
+            state = forget(state, name)
+            if v is not None:
+                state[name] = v
+        return state
+
+    def push(n, state: dict[str, bool]) -> None:
+        if n in blocked:
+            return
+        old = states.get(n)
+        if old is None:
+            states[n] = dict(state)
+            work.append(n)
+            return
+        merged = {k: v for k, v in old.items() if state.get(k) == v}
+        if merged != old:
+            states[n] = merged
+            work.append(n)
+
+    def step(n, state: dict[str, bool]) -> None:
+        taken = None
+        if n.kind == "test" and hasattr(n.ast, "test"):
+            v = _tv(n.ast.test, state)
+            if v is not None:
+                taken = {"T"} if v else {"F"}
+        st = transfer(n, dict(state))
+        for label, t in cfg.succ[n]:
+            if label in lx or (taken is not None and label in ("T", "F") and label not in taken):
+                continue
+            s2 = dict(st)
+            if n.kind == "test" and hasattr(n.ast, "test") and label in ("T", "F"):
+                for atxt, pol in atoms(n.ast.test, label == "T"):
+                    s2.setdefault(atxt, pol)
+                s2 = _surface(s2)
+            push(t, s2)
+
+    step(start, dict(assume))
+    while work:
+        n = work.pop()
+        step(n, dict(states[n]))
+    return states
+
+
+def _modes(own: Owner) -> dict[str, dict[str, bool]]:
+    """The two configurations as truth values of the provider's hand-out guards: the shared object is handed out exactly
+    when the guards hold (single-connection mode); per-call mode is their negation."""
+    g = {t: p for t, p in own.handout_guards() if re.fullmatch(r"(None is )?self\.\w+( is None)?", t)}
+    if not g:
+        # the hand-out is not selected by a branch (e.g. a conditional expression): no mode facts to assume, every test on the way
+        # to a commit stays undecided and both of its edges are followed (a gated commit is then reported in both modes)
+        return {"single-connection": {}, "per-call": {}}
+    return {"single-connection": _surface(g), "per-call": _surface({t: not p for t, p in g.items()})}
+
+
+def _is_generator(fn: ast.AST) -> bool:
+    return any(isinstance(n, (ast.Yield, ast.YieldFrom)) for n in walk_shallow(fn))
+
+
+def _conn_value_cm(own: Owner, fn: ast.AST, item: ast.withitem) -> ast.AST | None:
+    """The context expression when a with-item uses a sqlite3 *connection object* as its context manager (commit on success,
+    ROLLBACK on exception) — not a generator provider (whose with-block is the provider's own code) and not closing()."""
+    v = item.context_expr
+    if isinstance(v, ast.Call):
+        sc = _self_call(v)
+        if sc in own.providers and not _is_generator(own.methods[sc]):
+            return v
+        return None
+    if isinstance(v, (ast.Name, ast.Attribute)):
+        return v
+    return None
+
+
+class TxScope:
+    """Per class: which write statements can still be uncommitted when their method returns normally, per mode."""
+
+    def __init__(self, own: Owner):
+        self.own = own
+        self.modes = _modes(own)
+        self.taints = _helper_taint(own)
+        self.cfgs = {name: CFG(fn) for name, fn in own.methods.items()}
+        self.pending_params: dict[tuple[str, str], set[str]] = {}
+        self.unknown_sql: list[ast.Call] = []
+        self.results: dict[tuple[str, str], dict] = {}  # (method, key) -> verdict
+        self.n_events = 0
+        for _round in range(4):
+            before = {k: set(v) for k, v in self.pending_params.items()}
+            self._analyse()
+            if before == self.pending_params:
+                break
+
+    # ---- events
+    def _direct_writes(self, name: str) -> list[tuple[ast.AST, str, str]]:
+        fn, cfg, taint = self.own.methods[name], self.cfgs[name], self.taints.get(name, {})
+        out = []
+        for c in walk_shallow(fn):
+            if not (isinstance(c, ast.Call) and isinstance(c.func, ast.Attribute) and c.func.attr in ("execute", "executemany")):
+                continue
+            st = enclosing_stmt(c)
+            recv = c.func.value
+            if st is None or not (_conn_source(self.own, fn, recv, cfg, st, taint) or _cursor_source(self.own, fn, recv, cfg, st, taint)):
+                continue
+            frags = _sql_fragments(self.own, fn, c.args[0] if c.args else kwarg(c, "sql"))
+            if not frags:
+                if c not in self.unknown_sql:
+                    self.unknown_sql.append(c)
+                continue
+            key = _conn_key(fn, recv)
+            if "changes" in _own_write_kind(frags) and key is not None:
+                out.append((c, key, f"`{ast.unparse(c.func)[:40]}` ({' '.join(' '.join(frags).split()[:3])} …)"))
+        return out
+
+    def _delegated_writes(self, name: str, mode: str) -> list[tuple[ast.AST, str, str]]:
+        fn = self.own.methods[name]
+        out = []
+        for c in calls(fn):
+            h = _self_call(c)
+            if h is None or h == name or h not in self.own.methods:
+                continue
+            pend = self.pending_params.get((h, mode), set())
+            if not pend:
+                continue
+            hf = self.own.methods[h]
+            params = [a.arg for a in hf.args.posonlyargs + hf.args.args][1:]
+            bound = list(zip(params, c.args)) + [(k.arg, k.value) for k in c.keywords if k.arg in params]
+            for pname, arg in bound:
+                if pname in pend and not (isinstance(arg, ast.Constant) and arg.value is None):
+                    key = _conn_key(fn, arg)
+                    if key is not None:
+                        out.append((c, key, f"`self.{h}(… {ast.unparse(arg)})`, which writes on the connection it is given and leaves the commit to its caller"))
+        return out
+
+    # ---- commits
+    def _commit_nodes(self, name: str, key: str) -> list:
+        fn, cfg = self.own.methods[name], self.cfgs[name]
+        out = []
+        for c in walk_shallow(fn):
+            if isinstance(c, ast.Call) and isinstance(c.func, ast.Attribute) and c.func.attr == "commit" and not c.args and _conn_key(fn, c.func.value) == key:
+                out += cfg.nodes_of(enclosing_stmt(c))
+        return out
+
+    def _provider_commits(self, pname: str, mode: str) -> bool:
+        """A generator provider that commits the yielded connection itself when the caller's block ends normally."""
+        fn, cfg = self.own.methods[pname], self.cfgs[pname]
+        s1 = _reach_states(cfg, cfg.entry, self.modes[mode])
+        ys = [n for n in walk_shallow(fn) if isinstance(n, ast.Yield) and n.value is not None]
+        seen = False
+        for y in ys:
+            st = enclosing_stmt(y)
+            nodes = [n for n in cfg.nodes_of(st) if n in s1]
+            if not nodes:
+                continue
+            seen = True
+            key = _conn_key(fn, y.value)
+            if key is None:
+                return False
+            if self._inside_conn_cm(pname, y, key):
+                continue
+            commits = self._commit_nodes(pname, key)
+            for n in nodes:
+                if cfg.exit in _reach_states(cfg, n, s1[n], blocked=commits):
+                    return False
+        return seen
+
+    def _inside_conn_cm(self, name: str, node: ast.AST, key: str, mode: str | None = None) -> bool:
+        """`node` lies in the body of a with-block that commits `key` when the block ends normally."""
+        fn = self.own.methods[name]
+        cur, p = node, parent(node)
+        while p is not None and p is not fn:
+            if isinstance(p, (ast.With, ast.AsyncWith)) and any(cur is s for s in p.body):
+                for it in p.items:
+                    tgt = it.optional_vars.id if isinstance(it.optional_vars, ast.Name) else None
+                    v = _conn_value_cm(self.own, fn, it)
+                    if v is not None and (_conn_key(fn, v) == key or (tgt is not None and tgt == key)):
+                        return True
+                    sc = _self_call(it.context_expr) if isinstance(it.context_expr, ast.Call) else None
+                    if mode is not None and sc in self.own.providers and sc != name and _is_generator(self.own.methods[sc]) and tgt == key \
+                            and self._provider_commits(sc, mode):
+                        return True
+            cur, p = p, parent(p)
+        return False
+
+    # ---- verdicts
+    def _analyse(self) -> None:
+        self.results = {}
+        self.n_events = 0
+        for name, fn in self.own.methods.items():
+            cfg = self.cfgs[name]
+            direct = self._direct_writes(name)
+            params = [a.arg for a in fn.args.posonlyargs + fn.args.args + fn.args.kwonlyargs][1:]
+            defaults = dict(zip(reversed([a.arg for a in fn.args.posonlyargs + fn.args.args]), reversed(fn.args.defaults)))
+            defaults.update({a.arg: d for a, d in zip(fn.args.kwonlyargs, fn.args.kw_defaults) if d is not None})
+            for mode, massume in self.modes.items():
+                events = direct + self._delegated_writes(name, mode)
+                if mode == "single-connection":
+                    self.n_events += len(events)
+                keys = {k for _c, k, _d in events}
+                cparams = [p for p in params if p in keys]
+                cases: list[dict[str, bool]] = [{}]
+                for p in cparams:
+                    d = defaults.get(p)
+                    dom = [True, False] if isinstance(d, ast.Constant) and d.value is None else [False]
+                    cases = [dict(c, **{f"{p} is None": v}) for c in cases for v in dom]
+                for case in cases:
+                    assume = dict(massume)
+                    assume.update(_surface(case))
+                    s1 = _reach_states(cfg, cfg.entry, assume)
+                    s1[cfg.entry] = assume
+                    for c, key, desc in events:
+                        st = enclosing_stmt(c)
+                        r = self.results.setdefault((name, key), {"fn": fn, "site": c, "key": key, "desc": desc, "pending": [], "delegated": False})
+                        if self._inside_conn_cm(name, c, key, mode):
+                            continue
+                        commits = self._commit_nodes(name, key)
+                        for n in cfg.nodes_of(st):
+                            if n not in s1:
+                                continue
+                            if cfg.exit not in _reach_states(cfg, n, s1[n], blocked=commits):
+                                continue
+                            supplied = key in cparams and case.get(f"{key} is None") is False
+                            rebound = any(x in s1 for bst, _v in _binding_sites(fn, key) for x in cfg.nodes_of(bst))
+                            if supplied and not rebound:
+                                self.pending_params.setdefault((name, mode), set()).add(key)
+                                r["delegated"] = True
+                            else:
+                                how = mode + (f", `{key}` not passed in" if case.get(f"{key} is None") else "")
+                                if how not in r["pending"]:
+                                    r["pending"].append(how)
+                                    r["site"], r["desc"] = c, desc
+
+    def pending(self, mode: str = "single-connection") -> list[dict]:
+        return [r for r in self.results.values() if any(p.startswith(mode) for p in r["pending"])]
+
+    # ---- roll-back sites
+    def rollback_sites(self) -> list[dict]:
+        own = self.own
+        out = []
+        for name, fn in own.methods.items():
+            cfg, taint = self.cfgs[name], self.taints.get(name, {})
+            cands: list[tuple[ast.AST, ast.AST, str]] = []
+            for n in walk_shallow(fn):
+                if isinstance(n, (ast.With, ast.AsyncWith)):
+                    for it in n.items:
+                        v = _conn_value_cm(own, fn, it)
+                        if v is not None:
+                            cands.append((n, v, f"`with {ast.unparse(v)}` (sqlite3 connection as context manager: ROLLBACK when the block raises)"))
+                elif isinstance(n, ast.Call) and isinstance(n.func, ast.Attribute) and n.func.attr == "rollback" and not n.args:
+                    cands.append((n, n.func.value, f"`{ast.unparse(n)}`"))
+            for site, recv, how in cands:
+                st = site if isinstance(site, ast.stmt) else enclosing_stmt(site)
+                src = _protected_source(own, fn, recv, cfg, st, taint=taint)
+                if src is None:
+                    continue
+                nodes = cfg.nodes_of(st)
+                facts = set.intersection(*[facts_at(cfg, n) for n in nodes]) if nodes else set()
+                if _ownership_guard(own, facts, recv):
+                    continue  # only ever rolls back a connection this call opened
+                out.append({"fn": fn, "site": site, "how": how, "source": src, "recv": ast.unparse(recv)})
+        return sorted(out, key=lambda d: d["site"].lineno)
+
+
 # ----------------------------------------------------------------------------------------------- run
 
 
@@ -688,6 +1041,53 @@ def run(chk) -> None:
             or fgood != sorted(["purge_delta", "purge_guarded", "purge_changes", "insert", "tidy"]):
         raise AnchorError(f"C21.R3: fixture verdicts changed: reported {fbad}, accepted {fgood}")
 
+    # ---------------------------------------------------------------- R4
+    scopes = [(TxScope(w), WS), (TxScope(s), SS)]
+    n_writes = sum(tx.n_events for tx, _c in scopes)
+    # 7 on today's tree: workflow store update / delete / append_event / append_tick; state store _copy_state_from_run, _save_state and
+    # _load_state (hands its connection to _save_state, which leaves the commit to it)
+    chk.floor("C21.R4", "write statements (direct, or delegated to a helper that is given the connection) examined in both classes", n_writes, 6)
+    open_writes = [(cname, r) for tx, cname in scopes for r in tx.pending("single-connection")]
+    for tx, cname in scopes:
+        for (mname, key), r in sorted(tx.results.items(), key=lambda kv: kv[1]["site"].lineno):
+            ok = not r["pending"]
+            note = " (the commit is left to the callers that pass the connection in, which are checked)" if ok and r["delegated"] else ""
+            chk.ob("C21.R4", f"{cname}.{mname}: the write through `{key}` is committed on that connection before the method returns normally, in both modes{note}", ok,
+                   m=tx.own.m, node=r["site"], fn=r["fn"], instance="commit-after-write" + (f":{key}" if sum(1 for (mn, _k) in tx.results if mn == mname) > 1 else ""),
+                   reason=f"{r['desc']} can still be uncommitted when {cname}.{mname} returns ({'; '.join(r['pending'])}): the commit is missing or gated on a test that is "
+                          f"false in that case. In single-connection mode nobody else commits for it: the acknowledged write stays in the shared connection's open "
+                          f"transaction, is lost when the process ends and is discarded by any later ROLLBACK on that connection; with per-call connections the same write is "
+                          f"durable when the call returns. Commit on the connection the write used, independent of who owns it",
+                   path=r["pending"])
+        for c in tx.unknown_sql:
+            chk.observe(f"C21.R4: statement text of `{ast.unparse(c.func)}` at {tx.own.m.rel}:{c.lineno} has no constant piece; not classified as read or write.")
+    n_rb = 0
+    for tx, cname in scopes:
+        for d in tx.rollback_sites():
+            n_rb += 1
+            fn = d["fn"]
+            victims = "; ".join(f"{c}.{r['fn'].name}" for c, r in open_writes)
+            chk.ob("C21.R4", f"{cname}.{fn.name}: {d['how']} on a value that may be the shared connection discards only statements of the failing operation itself"
+                   + ("" if open_writes else " (every write operation commits before it returns, so nothing acknowledged is pending)"), not open_writes,
+                   m=tx.own.m, node=d["site"], fn=fn, instance=f"rollback-of:{d['recv']}",
+                   reason=f"`{d['recv']}` may be the shared connection ({d['source']}); writes that {victims} left uncommitted are still in its open transaction, so this "
+                          f"ROLLBACK discards an acknowledged write of another, unrelated operation; a per-call store keeps it",
+                   path=[d["source"]] + [f"pending write: {c}.{r['fn'].name} at {r['site'].lineno}" for c, r in open_writes])
+    if n_rb == 0:
+        chk.ob("C21.R4", "no roll-back (rollback() / sqlite3 connection used as a context manager) on a value that may be the shared connection", True,
+               m=w.m, node=w.cls, instance="no-rollback-sites")
+    # planted fixture: pending writes and roll-back sites must be reported, committed / delegated-and-committed writes accepted
+    ftx = TxScope(_fixture_class(FIXTURE_R4, "TxStore", {"_shared_conn"}))
+    fbad = sorted(n for (n, _k), r in ftx.results.items() if r["pending"])
+    fgood = sorted(n for (n, _k), r in ftx.results.items() if not r["pending"])
+    frb = sorted(d["fn"].name for d in ftx.rollback_sites())
+    chk.floor("C21.R4", "planted uncommitted writes reported in fixtures/c21/tx_scope.py", len(fbad), 3)
+    chk.floor("C21.R4", "planted committed writes accepted in fixtures/c21/tx_scope.py", len(fgood), 5)
+    chk.floor("C21.R4", "planted roll-back sites found in fixtures/c21/tx_scope.py", len(frb), 3)
+    if fbad != sorted(["save_gated", "save_mode_gated", "load_forgets"]) or fgood != sorted(["save_ok", "save_early", "_put", "load", "save_with"]) \
+            or frb != sorted(["failing_op", "save_with", "undo"]):
+        raise AnchorError(f"C21.R4: fixture verdicts changed: pending {fbad}, committed {fgood}, roll-back sites {frb}")
+
     # ---------------------------------------------------------------- R2
     n_conn = 0
     for own, cname in ((w, WS), (s, SS)):
@@ -718,6 +1118,11 @@ def run(chk) -> None:
                       and isinstance(x.func.value, ast.Name) and x.func.value.id == local]
             ys = [n for n in cfg.nodes if n.ast is not None and n.kind == "stmt" and isinstance(n.ast, ast.Expr) and isinstance(n.ast.value, ast.Yield)
                   and isinstance(n.ast.value.value, ast.Name) and n.ast.value.value.id == local]
+            if local:
+                # only the yields that this opening reaches (the name may also be bound in the shared branch: `with self.P as conn: yield conn`)
+                others = [n for bst, _v in _binding_sites(fn, local) if bst is not st for n in cfg.nodes_of(bst)]
+                live = cfg.reach(cfg.nodes_of(st), blocked=others, include_starts=False)
+                ys = [n for n in ys if n in live]
             close_nodes = [n for x in closes for n in cfg.nodes_of(enclosing_stmt(x))]
             # every way out of the yield (normal, exception thrown into the generator) passes a close
             leak = bool(ys) and bool(cfg.must_pass(ys, [cfg.exit, cfg.raise_exit], close_nodes, include_starts=False))
@@ -737,6 +1142,10 @@ _PW = "packages/llama-agents-server/src/llama_agents/server/_store/sqlite/sqlite
 _PS = "packages/llama-agents-server/src/llama_agents/server/_store/sqlite/sqlite_state_store.py"
 
 _DEL = "            cursor = conn.cursor()\n            cursor.execute(sql, tuple(params))\n            deleted = cursor.rowcount\n            conn.commit()\n"
+
+_SHARED_BRANCH = "            assert self._persistent_conn is not None\n            yield self._persistent_conn\n"
+_SHARED_BRANCH_CM = "            assert self._persistent_conn is not None\n            with self._persistent_conn as conn:\n                yield conn\n"
+_TICK_COMMIT = "                    json.dumps(tick_data),\n                ),\n            )\n            conn.commit()\n"
 
 TWINS = [
     # ---- R1 breaking
@@ -801,6 +1210,31 @@ TWINS = [
          "                deleted = cursor.rowcount\n            else:\n                deleted = conn.total_changes\n", None),
     Twin("benign: update ends a transaction left open before it starts", _PW, "    async def update(self, handler: PersistentHandler) -> None:\n        with self._connect() as conn:\n",
          "    async def update(self, handler: PersistentHandler) -> None:\n        with self._connect() as conn:\n            if conn.in_transaction:\n                conn.rollback()\n", None),
+    # ---- R4 breaking: a write can stay uncommitted in single-connection mode (and a roll-back then discards it)
+    Twin("seed form, site 1: save_state commits only when it owns the connection", _PS, "        should_close = conn is None\n",
+         "        should_close = conn is None and self._shared_conn is None\n", "C21.R4"),
+    Twin("provider rolls the shared connection back on failure, append_tick commits only per call", _PW,
+         *multi(_PW, [(_SHARED_BRANCH, "            assert self._persistent_conn is not None\n            try:\n                yield self._persistent_conn\n"
+                                       "            except BaseException:\n                self._persistent_conn.rollback()\n                raise\n"),
+                      (_TICK_COMMIT, "                    json.dumps(tick_data),\n                ),\n            )\n            if self._persistent_conn is None:\n                conn.commit()\n")]), "C21.R4"),
+    Twin("copy_state commits only a connection it may close", _PS, "            conn.commit()\n        finally:\n            self._release(conn)\n\n    def _serialize_state",
+         "            if conn is not self._shared_conn:\n                conn.commit()\n        finally:\n            self._release(conn)\n\n    def _serialize_state", "C21.R4"),
+    Twin("load_state hands its connection to save_state and forgets the commit", _PS, "                self._save_state(state, conn)\n                conn.commit()\n",
+         "                self._save_state(state, conn)\n", "C21.R4"),
+    Twin("append_event commits through an early return that skips the shared mode", _PW, "                    event.model_dump_json(),\n                ),\n            )\n            conn.commit()\n",
+         "                    event.model_dump_json(),\n                ),\n            )\n            if not self._single_connection:\n                conn.commit()\n", "C21.R4"),
+    Twin("delete commits before its DELETE has run", _PW, _DEL,
+         "            cursor = conn.cursor()\n            conn.commit()\n            cursor.execute(sql, tuple(params))\n            deleted = cursor.rowcount\n", "C21.R4"),
+    # ---- R4 benign
+    Twin("benign: seed site 2 alone — provider yields the shared connection through its context manager", _PW, _SHARED_BRANCH, _SHARED_BRANCH_CM, None),
+    Twin("benign: provider's context manager commits the shared mode, append_tick commits the per-call mode", _PW,
+         *multi(_PW, [(_SHARED_BRANCH, _SHARED_BRANCH_CM), (_TICK_COMMIT, "                    json.dumps(tick_data),\n                ),\n            )\n            if not self._single_connection:\n                conn.commit()\n")]), None),
+    Twin("benign: save_state commits unconditionally, ownership only decides the release", _PS, "            if should_close:\n                conn.commit()\n", "            conn.commit()\n", None),
+    Twin("benign: save_state ownership flag computed after the re-binding", _PS, "        should_close = conn is None\n        if conn is None:\n            conn = self._connect()\n",
+         "        if conn is None:\n            should_close = True\n            conn = self._connect()\n        else:\n            should_close = False\n", None),
+    Twin("benign: delete rolls its own statements back when it fails", _PW, _DEL,
+         "            try:\n                cursor = conn.cursor()\n                cursor.execute(sql, tuple(params))\n                deleted = cursor.rowcount\n                conn.commit()\n"
+         "            except Exception:\n                conn.rollback()\n                raise\n", None),
     # ---- R2 breaking / benign
     Twin("get_ticks opens its own connection", _PW, "    async def get_ticks(self, run_id: str) -> list[StoredTick]:\n        with self._connect() as conn:",
          "    async def get_ticks(self, run_id: str) -> list[StoredTick]:\n        with contextlib.closing(sqlite3.connect(self.db_path)) as conn:", "C21.R2"),
